@@ -111,7 +111,7 @@ def family_jobs(names: Iterable[str], tier: str, variants: int = 0) -> Iterator[
         yield from jobs
         keep = slice_keep(tier)
         base = sorted((j for j in jobs if keep(j)), key=lambda j: j["id"])
-        cap = variants if tier == "quick" else 25 * variants
+        cap = variants if tier == "quick" else 5 * variants
         if len(base) > cap:
             base = [base[(k * len(base)) // cap] for k in range(cap)]  # evenly spaced
         yield from mutate.variants(base)
